@@ -141,6 +141,20 @@ impl<T: Send + Sync + 'static> Probe<T> {
             }
             self.act(&c);
         }
+        // overlapping subscriptions: from inside its Terminate/Error handler (the "repeat on complete"
+        // idiom) a sink may make ANOTHER sink act; it does not use its own talkback any more
+        if !react && cfg.cross && !cfg.passive && env.with_sink(self.k, |s| s.ended) {
+            let xs: Vec<String> = self.options(false).into_iter().filter(|o| o.starts_with("x ")).collect();
+            if !xs.is_empty() {
+                let mut opts: Vec<String> = vec!["none".into()];
+                opts.extend(xs);
+                let optr: Vec<&str> = opts.iter().map(|s| s.as_str()).collect();
+                let c = env.decide("sink", &self.name, &optr);
+                if c != "none" {
+                    self.act(&c);
+                }
+            }
+        }
     }
 
     /// options of this sink, nested (inside a handler: with "none") or at top level
